@@ -1,4 +1,3 @@
-use std::cmp::min;
 
 use lazy_static::lazy_static;
 
@@ -229,7 +228,13 @@ fn new_line_state(
     let (prefix_char, prefix, in_merge_conflict) = match diff_type.clone() {
         Unified => (new_line.chars().next(), None, None),
         Combined(Number(n_parents), in_merge_conflict) => {
-            let prefix_len = min(n_parents, new_line.len());
+            if new_line.len() < n_parents {
+                // Shorter than the marker columns (an empty line, a lone blank): not a hunk line.
+                // Taken for one, its short prefix would be handed on as the number of marker
+                // columns of the lines that follow - with an empty line, none at all.
+                return None;
+            }
+            let prefix_len = n_parents;
             if !new_line.is_char_boundary(prefix_len) {
                 // The would-be prefix ends inside a multi-byte character: not a hunk line.
                 return None;
